@@ -424,3 +424,135 @@ Theorem C04_tw_hash :
   (a < 2 ^ 64)%N -> src_table_hash fuel h this (BinInt.Z.of_N a) = FOk (BinInt.Z.of_nat (hashN a)).
 Proof. exact tw_hash. Qed.
 Print Assumptions C04_tw_hash.
+
+(* --------------------------------------------------------------------------------------------------------------
+   ... and the read-only member functions of MemoryLeakDetectorTable: hash, retrieveNode, getTotalLeaks, the leak iteration getFirstLeak / getNextLeak (and the allocation-stage variants) across the buckets, with their meaning in terms of the model's t_retrieve / t_total / t_first / t_next
+   -------------------------------------------------------------------------------------------------------------- *)
+From CppUVerif Require Import C04_HeapTable.
+Local Open Scope Z_scope.
+Theorem C04_src_table_hash_spec :
+  forall (fuel : nat) (h : heap) (this : hptr) (a : N),
+  (a < 2 ^ 64)%N -> src_table_hash fuel h this (BinInt.Z.of_N a) = FOk (BinInt.Z.of_nat (hashN a)).
+Proof. exact src_table_hash_spec. Qed.
+Print Assumptions C04_src_table_hash_spec.
+
+Theorem C04_src_table_retrieveNode_spec :
+  forall (fuel : nat) (h : heap) (bt : nat) (bss : list (list nat)) (t : table) (a : N),
+  table_at h bt bss t ->
+  (a < 2 ^ 64)%N ->
+  (forall i : nat, i < nbuckets -> length (nth i t []) < fuel) ->
+  src_table_retrieveNode fuel h (HPtr bt Z0) (BinInt.Z.of_N a) =
+  FOk (ptr_of a (nth (hashN a) bss []) (nth (hashN a) t [])).
+Proof. exact src_table_retrieveNode_spec. Qed.
+Print Assumptions C04_src_table_retrieveNode_spec.
+
+Theorem C04_table_retrieve_none :
+  forall (h : heap) (bt : nat) (bss : list (list nat)) (t : table) (a : N),
+  table_at h bt bss t -> ptr_of a (nth (hashN a) bss []) (nth (hashN a) t []) = HNull <-> t_retrieve a t = None.
+Proof. exact table_retrieve_none. Qed.
+Print Assumptions C04_table_retrieve_none.
+
+Theorem C04_table_retrieve_some :
+  forall (h : heap) (bt : nat) (bss : list (list nat)) (t : table) (a : N) (n : node),
+  table_at h bt bss t ->
+  t_retrieve a t = Some n ->
+  exists (b : nat) (nxt : hptr),
+  ptr_of a (nth (hashN a) bss []) (nth (hashN a) t []) = HPtr b Z0 /\
+  In b (nth (hashN a) bss []) /\ In b (concat bss) /\ hblock h b = node_cells n nxt.
+Proof. exact table_retrieve_some. Qed.
+Print Assumptions C04_table_retrieve_some.
+
+Theorem C04_src_table_getTotalLeaks_spec :
+  forall (fuel : nat) (h : heap) (bt : nat) (bss : list (list nat)) (t : table) (per : period),
+  table_at h bt bss t ->
+  (forall i : nat, i < nbuckets -> length (nth i t []) < fuel) ->
+  BinInt.Z.lt (BinInt.Z.of_nat (t_count t)) (BinInt.Z.pow (Zpos 2) (Zpos 64)) ->
+  73 < fuel ->
+  src_table_getTotalLeaks fuel h (HPtr bt Z0) (period_code per) = FOk (BinInt.Z.of_N (t_total per t)).
+Proof. exact src_table_getTotalLeaks_spec. Qed.
+Print Assumptions C04_src_table_getTotalLeaks_spec.
+
+Theorem C04_src_table_getFirstLeak_spec :
+  forall (fuel : nat) (h : heap) (bt : nat) (bss : list (list nat)) (t : table) (per : period),
+  table_at h bt bss t ->
+  (forall i : nat, i < nbuckets -> length (nth i t []) < fuel) ->
+  73 < fuel ->
+  src_table_getFirstLeak fuel h (HPtr bt Z0) (period_code per) =
+  FOk (tptr_first (fun n : node => is_in_period n per) bss t).
+Proof. exact src_table_getFirstLeak_spec. Qed.
+Print Assumptions C04_src_table_getFirstLeak_spec.
+
+Theorem C04_src_table_getFirstLeakForAllocationStage_spec :
+  forall (fuel : nat) (h : heap) (bt : nat) (bss : list (list nat)) (t : table) (s : N),
+  table_at h bt bss t ->
+  (forall i : nat, i < nbuckets -> length (nth i t []) < fuel) ->
+  73 < fuel ->
+  src_table_getFirstLeakForAllocationStage fuel h (HPtr bt Z0) (BinInt.Z.of_N s) =
+  FOk (tptr_first (fun n : node => is_in_stage n s) bss t).
+Proof. exact src_table_getFirstLeakForAllocationStage_spec. Qed.
+Print Assumptions C04_src_table_getFirstLeakForAllocationStage_spec.
+
+Theorem C04_table_first_none :
+  forall (h : heap) (bt : nat) (bss : list (list nat)) (t : table) (f : node -> bool),
+  table_at h bt bss t -> tptr_first f bss t = HNull <-> t_first f t = None.
+Proof. exact table_first_none. Qed.
+Print Assumptions C04_table_first_none.
+
+Theorem C04_table_first_some :
+  forall (h : heap) (bt : nat) (bss : list (list nat)) (t : table) (f : node -> bool) (n : node),
+  table_at h bt bss t ->
+  t_first f t = Some n ->
+  exists (b : nat) (nxt : hptr),
+  tptr_first f bss t = HPtr b Z0 /\ In b (concat bss) /\ hblock h b = node_cells n nxt.
+Proof. exact table_first_some. Qed.
+Print Assumptions C04_table_first_some.
+
+Theorem C04_src_table_getNextLeak_spec :
+  forall (fuel : nat) (h : heap) (bt : nat) (bss : list (list nat)) (t : table) (i k : nat)
+  (per : period) (d : node),
+  table_at h bt bss t ->
+  i < nbuckets ->
+  k < length (nth i t []) ->
+  hashN (n_addr (nth k (nth i t []) d)) = i ->
+  (forall j : nat, j < nbuckets -> length (nth j t []) < fuel) ->
+  72 - i < fuel ->
+  src_table_getNextLeak fuel h (HPtr bt Z0) (HPtr (nth k (nth i bss []) 0) Z0) (period_code per) =
+  FOk (tptr_next (fun n : node => is_in_period n per) i k bss t).
+Proof. exact src_table_getNextLeak_spec. Qed.
+Print Assumptions C04_src_table_getNextLeak_spec.
+
+Theorem C04_src_table_getNextLeakForAllocationStage_spec :
+  forall (fuel : nat) (h : heap) (bt : nat) (bss : list (list nat)) (t : table) (i k : nat) (s : N) (d : node),
+  table_at h bt bss t ->
+  i < nbuckets ->
+  k < length (nth i t []) ->
+  hashN (n_addr (nth k (nth i t []) d)) = i ->
+  (forall j : nat, j < nbuckets -> length (nth j t []) < fuel) ->
+  72 - i < fuel ->
+  src_table_getNextLeakForAllocationStage fuel h (HPtr bt Z0) (HPtr (nth k (nth i bss []) 0) Z0)
+  (BinInt.Z.of_N s) = FOk (tptr_next (fun n : node => is_in_stage n s) i k bss t).
+Proof. exact src_table_getNextLeakForAllocationStage_spec. Qed.
+Print Assumptions C04_src_table_getNextLeakForAllocationStage_spec.
+
+Theorem C04_tptr_next_none :
+  forall (h : heap) (bt : nat) (bss : list (list nat)) (t : table) (f : node -> bool) (i k : nat) (d : node),
+  table_at h bt bss t ->
+  i < nbuckets ->
+  k < length (nth i t []) ->
+  hashN (n_addr (nth k (nth i t []) d)) = i ->
+  NoDup (map n_addr (nth i t [])) -> tptr_next f i k bss t = HNull <-> t_next f (nth k (nth i t []) d) t = None.
+Proof. exact tptr_next_none. Qed.
+Print Assumptions C04_tptr_next_none.
+
+Theorem C04_tptr_next_some :
+  forall (h : heap) (bt : nat) (bss : list (list nat)) (t : table) (f : node -> bool) (i k : nat) (d n : node),
+  table_at h bt bss t ->
+  i < nbuckets ->
+  k < length (nth i t []) ->
+  hashN (n_addr (nth k (nth i t []) d)) = i ->
+  NoDup (map n_addr (nth i t [])) ->
+  t_next f (nth k (nth i t []) d) t = Some n ->
+  exists (b : nat) (nxt : hptr),
+  tptr_next f i k bss t = HPtr b Z0 /\ In b (concat bss) /\ hblock h b = node_cells n nxt.
+Proof. exact tptr_next_some. Qed.
+Print Assumptions C04_tptr_next_some.
